@@ -18,7 +18,7 @@ LEVEL = "model_checking"
 RULE = ("E3: BFS with dedup on (index, bitfield, model) over all is_valid/strike_out histories of ReplayWindow for sizes 1,2,3,4,8,32 "
         "(numbers 0..2*size+2 and jumps of size, size+1, 10*size beyond the maximum) from three initialisations, with a "
         "persist/reload probe in every state; E1: every arrival sequence up to length L over genuine requests with numbers "
-        "{0,1,2,w-1,w,w+1,3w}, their replays, tag-flipped and far-ahead forgeries, and Echo variants for an uninitialised window, "
+        "{0,1,2,w-1,w,w+1,3w,2^40-1}, their replays, recorded requests with a rewritten outer code (0.00, 7.01, 2.04), tag-flipped and far-ahead forgeries, and Echo variants for an uninitialised window, "
         "and (initialised window) responses of the peer carrying its own Partial IV, through unprotect(); state really lost: a file-backed context accepts 1-3 requests, the process dies, after reload nothing is accepted "
         "before a fresh Echo exchange")
 ASSUMPTIONS = [
@@ -124,12 +124,21 @@ def window_bfs(res, size, init, depth):
 
 # ------------------------------------------------------------------------------------------ level 2
 
+TOP = 2 ** 40 - 1     # the largest number a Partial IV may carry (RFC 8613 section 7.2.1: less than 2^40)
+
+
 def genuine(cl, n, echo=None):
     cl.sender_sequence_number = n
     m = Message(code=codes.GET, uri_path=["r"])
     if echo is not None:
         m.opt.echo = echo
-    outer, _ = cl.protect(m)
+    if n == TOP:
+        # the library's own sender stops one short of the last number; a peer need not
+        cl.new_sequence_number = lambda: n
+    try:
+        outer, _ = cl.protect(m)
+    finally:
+        cl.__dict__.pop("new_sequence_number", None)
     w, data = wire(outer)
     return data
 
@@ -183,6 +192,32 @@ def arrivals(res, w, seq, initialised):
                 cache[key] = genuine(cl, n, echo)
             data = cache[key]
             authentic = True
+        elif kind == "recode":
+            # the recorded request n with its outer code - which nothing authenticates - rewritten: whatever the context makes of it,
+            # letting it in is letting request n in, and turning it down leaves everything as it was (an uninitialised window
+            # in particular stays uninitialised: nothing here echoes anything)
+            key = (n, None)
+            if key not in cache:
+                cache[key] = genuine(cl, n)
+            data = cache[key][:1] + bytes([a[2]]) + cache[key][2:]
+            before = sv.recipient_replay_window.persist()
+            try:
+                sv.unprotect(Message.decode(data))
+                accepted = True
+            except Exception:
+                accepted = False      # (which exception class is not this property's subject for a message no sender sent)
+            after = sv.recipient_replay_window.persist()
+            want_ok = m is not None and m.valid(n)
+            if accepted and not want_ok:
+                res.violate(Violation("arrival-outcome", "rejected", "accepted under outer code %d.%02d" % (a[2] >> 5, a[2] & 31), "oscore.py:unprotect",
+                                      dict(case, at=list(a)), key="recode:accepted-twice-or-old"))
+                return
+            if accepted:
+                m.accept(n)
+            elif after != before:
+                res.violate(Violation("rejected-arrival-moved-window", before, after, "oscore.py:unprotect", dict(case, at=list(a)), key="recode-window"))
+                return
+            continue
         elif kind == "forge-tag":
             base = genuine(cl, n)
             data = base[:-1] + bytes([base[-1] ^ 0x01])
@@ -238,6 +273,8 @@ def arrivals(res, w, seq, initialised):
 def alphabet(w, initialised):
     nums = sorted({0, 1, 2, w - 1, w, w + 1, 3 * w})
     A = [("gen", n) for n in nums]
+    # the last number there is; recorded requests under outer codes no request carries (0.00, 7.01) and under a response code
+    A += [("gen", TOP), ("recode", 1, 0), ("recode", w + 1, 0xE1), ("recode", 2, 0x44)]
     A += [("forge-tag", n) for n in (1, w, 3 * w)] + [("forge-piv", n) for n in (2, 10 * w)]
     if not initialised:
         A += [("gen", n, "right") for n in (1, w + 1)] + [("gen", 2, "wrong")]
